@@ -39,9 +39,9 @@ type c10Fac struct {
 	cols []c10Col
 	// each constructor returns the container and the typed write of logical rows
 	schema       func() *parquet.Schema
-	newGeneric   func(opt ...parquet.RowGroupOption) (c10Buf, func([][]c10Cell) error)
-	newRowBuffer func(opt ...parquet.RowGroupOption) (c10Buf, func([][]c10Cell) error)
-	newWriter    func(out io.Writer, sortRows int64, opt ...parquet.WriterOption) (c10SW, func([][]c10Cell) error)
+	newGeneric   func(opt ...parquet.RowGroupOption) (c10Buf, func([][]c10Cell, bool) error)
+	newRowBuffer func(opt ...parquet.RowGroupOption) (c10Buf, func([][]c10Cell, bool) error)
+	newWriter    func(out io.Writer, sortRows int64, opt ...parquet.WriterOption) (c10SW, func([][]c10Cell, bool) error)
 }
 
 var c10Facs = map[string]*c10Fac{}
@@ -79,17 +79,38 @@ func c10AddFac[K any, T any, PT interface {
 	}
 	f := &c10Fac{name: name, kind: kind, cols: cols}
 	f.schema = func() *parquet.Schema { return parquet.SchemaOf(new(T)) }
-	f.newGeneric = func(opt ...parquet.RowGroupOption) (c10Buf, func([][]c10Cell) error) {
+	f.newGeneric = func(opt ...parquet.RowGroupOption) (c10Buf, func([][]c10Cell, bool) error) {
 		b := parquet.NewGenericBuffer[T](opt...)
-		return b, func(rows [][]c10Cell) error { _, err := b.Write(toT(rows)); return err }
+		return b, func(rows [][]c10Cell, reuse bool) error {
+			rs := toT(rows)
+			_, err := b.Write(rs)
+			if reuse {
+				c10ClobberStructs(rs)
+			}
+			return err
+		}
 	}
-	f.newRowBuffer = func(opt ...parquet.RowGroupOption) (c10Buf, func([][]c10Cell) error) {
+	f.newRowBuffer = func(opt ...parquet.RowGroupOption) (c10Buf, func([][]c10Cell, bool) error) {
 		b := parquet.NewRowBuffer[T](opt...)
-		return b, func(rows [][]c10Cell) error { _, err := b.Write(toT(rows)); return err }
+		return b, func(rows [][]c10Cell, reuse bool) error {
+			rs := toT(rows)
+			_, err := b.Write(rs)
+			if reuse {
+				c10ClobberStructs(rs)
+			}
+			return err
+		}
 	}
-	f.newWriter = func(out io.Writer, sortRows int64, opt ...parquet.WriterOption) (c10SW, func([][]c10Cell) error) {
+	f.newWriter = func(out io.Writer, sortRows int64, opt ...parquet.WriterOption) (c10SW, func([][]c10Cell, bool) error) {
 		w := parquet.NewSortingWriter[T](out, sortRows, opt...)
-		return w, func(rows [][]c10Cell) error { _, err := w.Write(toT(rows)); return err }
+		return w, func(rows [][]c10Cell, reuse bool) error {
+			rs := toT(rows)
+			_, err := w.Write(rs)
+			if reuse {
+				c10ClobberStructs(rs)
+			}
+			return err
+		}
 	}
 	c10Facs[name] = f
 	c10FacNames = append(c10FacNames, name)
